@@ -343,19 +343,53 @@ def rule_r3(rep, repo):
         if k.startswith("self.") and last_store(v, None) and last_store(v, None)[0] == I1 and pre.get(k) is not None \
                 and "dtype" in repr(pre.get(k)):
             idx_field = k
+    prefix_field = None
     if idx_field is None:
-        raise AnalysisError("unrecognised idiom: MolGrid.__init__ keeps no cumulative index table updated at [i + 1]")
-    key, val, prev = last_store(vg.env[idx_field], None)
-    size_g = ("attr", G, "size")
-    want = e5.mk_ac("+", [("sub", prev, I), size_g])
-    want_aug = e5.mk_ac("+", [("sub", prev, I1), ("sub", prev, I), size_g])  # `+=` on a zero-initialised table
-    zero_init = "zeros" in repr(pre[idx_field])
-    if val == want or (val == want_aug and zero_init):
-        rep.ok("R3.concatenation", "MolGrid.__init__:index-table-cumulative", where, e5.show(val, 90))
+        # second idiom: the whole table is built before the loop as [0, cumsum(sizes)] and only read in it
+        param = norm(loop.iter.args[0]) if isinstance(loop.iter, ast.Call) and loop.iter.args else None
+
+        def sizes_of_atgrids(t):
+            """`[g.size for g in atgrids]`, possibly wrapped in np.array/np.asarray (E5 folds those)."""
+            return isinstance(t, tuple) and t and t[0] == "comp" and t[1] == "ListComp" and len(t[3]) == 1 and \
+                not t[3][0][1] and t[3][0][0] == ("sym", param) and t[2] == ("attr", ("bound", 0, 0), "size")
+
+        def is_cumsum(t):
+            return isinstance(t, tuple) and t and t[0] == "call" and e5.show(t[1]) in ("np.cumsum", "numpy.cumsum") \
+                and len(t[2]) == 1 and not t[3] and sizes_of_atgrids(t[2][0])
+
+        def zero_first(t):
+            return isinstance(t, tuple) and t and t[0] in ("list", "tuple") and len(t[1]) == 1 and t[1][0] == ("const", "0")
+        for k, v in pre.items():
+            if not k.startswith("self.") or vg.env.get(k) != v:
+                continue
+            st = last_store(v, None)
+            form_a = st is not None and st[0] == ("slice", ("const", "1"), None, None) and is_cumsum(st[1]) and \
+                "zeros" in repr(st[2]) and last_store(st[2], None) is None
+            form_b = isinstance(v, tuple) and v and v[0] == "call" and e5.show(v[1]) in ("np.concatenate", "np.hstack") \
+                and len(v[2]) == 1 and v[2][0][0] in ("list", "tuple") and len(v[2][0][1]) == 2 \
+                and zero_first(v[2][0][1][0]) and is_cumsum(v[2][0][1][1])
+            form_c = isinstance(v, tuple) and v and v[0] == "call" and e5.show(v[1]) == "np.insert" and len(v[2]) == 3 \
+                and is_cumsum(v[2][0]) and v[2][1] == ("const", "0") and v[2][2] == ("const", "0")
+            if form_a or form_b or form_c:
+                prefix_field = k
+        if prefix_field is None:
+            raise AnalysisError("unrecognised idiom: MolGrid.__init__ keeps no cumulative index table (neither updated "
+                                "at [i + 1] in the loop nor built as [0, cumsum(sizes)] before it)")
+        idx_field = prefix_field
+        rep.ok("R3.concatenation", "MolGrid.__init__:index-table-cumulative", where,
+               "table = [0, cumsum(g.size for g in atgrids)] built before the loop and only read in it")
     else:
-        rep.violation("R3.concatenation", cons, "index-table-cumulative",
-                      f"entry i+1 of the index table is set to {e5.show(val, 110)}; it must be entry i plus the size of "
-                      f"atomic grid i, otherwise indices[k]:indices[k+1] no longer delimits atom k", where)
+        key, val, prev = last_store(vg.env[idx_field], None)
+        size_g = ("attr", G, "size")
+        want = e5.mk_ac("+", [("sub", prev, I), size_g])
+        want_aug = e5.mk_ac("+", [("sub", prev, I1), ("sub", prev, I), size_g])  # `+=` on a zero-initialised table
+        zero_init = "zeros" in repr(pre[idx_field])
+        if val == want or (val == want_aug and zero_init):
+            rep.ok("R3.concatenation", "MolGrid.__init__:index-table-cumulative", where, e5.show(val, 90))
+        else:
+            rep.violation("R3.concatenation", cons, "index-table-cumulative",
+                          f"entry i+1 of the index table is set to {e5.show(val, 110)}; it must be entry i plus the size of "
+                          f"atomic grid i, otherwise indices[k]:indices[k+1] no longer delimits atom k", where)
     IDX = vg.env[idx_field]
     lo, hi = ("sub", IDX, I), ("sub", IDX, I1)
     for fld, attr, role in (("_points", "points", "points-copied-by-slice"), ("_atweights", "weights", "weights-copied-by-slice")):
